@@ -78,7 +78,11 @@ def parse_emitted(text: str) -> List[Any]:
     return out
 
 
-def prepare_dir(workdir: str, name: str) -> str:
+def prepare_dir(workdir: str, name: str, module: Optional[str] = None,
+                defs: Optional[Dict[str, str]] = None) -> str:
+    """copy the specs into a scratch dir; `defs` (name -> TLA+ expression) are appended to `module`
+    just before its `Init ==` so that a cfg can say `Const <- name` for values a cfg cannot express
+    (negative numbers, sequences, records)"""
     d = os.path.join(workdir, name)
     if os.path.isdir(d):
         shutil.rmtree(d)
@@ -87,6 +91,13 @@ def prepare_dir(workdir: str, name: str) -> str:
         for f in files:
             if f.endswith(".tla"):
                 shutil.copy(os.path.join(root, f), os.path.join(d, f))
+    if defs and module:
+        p = os.path.join(d, f"{module}.tla")
+        text = open(p).read()
+        i = text.index("\nInit ==")
+        extra = "\n".join(f"{k} == {v}" for k, v in defs.items())
+        with open(p, "w") as fh:
+            fh.write(text[:i] + "\n" + extra + text[i:])
     return d
 
 
@@ -108,9 +119,10 @@ def run_tlc(
     heap: str = "4g",
     expect_violation: bool = False,
     dfid: Optional[int] = None,
+    defs: Optional[Dict[str, str]] = None,
 ) -> TLCResult:
     name = name or module
-    d = prepare_dir(workdir, "tlc_" + name)
+    d = prepare_dir(workdir, "tlc_" + name, module, defs)
     cfg_path = os.path.join(d, f"{module}.cfg")
     with open(cfg_path, "w") as f:
         f.write(cfg_text)
